@@ -35,7 +35,7 @@ def jobs_for(tier: str) -> list[dict]:
         for physical in (1, 2, 3):
             arity = 3 if physical == 1 else 4
             for name, stmts in C.sharing_sequences(arity) + C.repeat_masks(arity)[:4]:
-                if integ == "rdflib" and name.startswith("deep"):
+                if integ == "rdflib" and not P.rdf11(stmts):
                     continue
                 for logical in ((1, 3, None) if physical == 1 else (2, 4, None)):
                     for ns_on in (False, True):
